@@ -129,3 +129,21 @@ Theorem C17_temp_files_are_per_writer :
   protocol_as_modelled gen_prepare_file_write gen_writer_done gen_writer_drop gen_tmp_counter_lines gen_prepare_calls = true.
 Proof. vm_compute. reflexivity. Qed.
 Print Assumptions C17_temp_files_are_per_writer.
+
+(* overlapping writes: at every moment of every execution of any number of concurrent writers (any faults, any schedule), an object
+   that none of them addresses is exactly what it was - whatever the others write, however they fail, although all of them share one
+   temp directory and one counter (model/FsWriteMulti.v; simulation in proofs/FsWriteMultiProofs.v) *)
+From S3V Require Import model.FsWrite model.FsWriteMulti proofs.FsWriteProofs proofs.FsWriteMultiProofs.
+Theorem C17_overlapping_writes_touch_only_their_destination : forall ws prev sched d,
+  (forall w, In w ws -> m_dest w <> d) ->
+  alookup N.eqb d (objs (msfs (mrun_sched ws prev sched))) = alookup N.eqb d prev.
+Proof. exact other_destinations_untouched. Qed.
+Print Assumptions C17_overlapping_writes_touch_only_their_destination.
+Example C17_two_destinations_example :
+  let a := {| m_dest := 1; m_w := {| w_frames := [[97]; [98]]; w_fault := no_fault |} |} in
+  let c := {| m_dest := 2; m_w := {| w_frames := [[99]]; w_fault := no_fault |} |} in
+  let s := mrun_sched [a; c] [(2, [122]); (3, [33])] [0; 1; 0; 1; 1; 0; 0]%nat in
+  mall_finished s = true /\ alookup N.eqb 1 (objs (msfs s)) = Some [97; 98] /\ alookup N.eqb 2 (objs (msfs s)) = Some [99]
+  /\ alookup N.eqb 3 (objs (msfs s)) = Some [33] /\ mtmps (msfs s) = [].
+Proof. vm_compute. repeat split. Qed.
+Print Assumptions C17_two_destinations_example.
